@@ -174,13 +174,24 @@ TRUST_PAT = re.compile(r"\b(assume\s*\(|admit\s*\(|external_body|assume_specific
 
 def scan_trusted(out):
     found = []
+    nlem = [0]
+    ncon = []
     for k, l in enumerate(out.lines):
         if l.strip().startswith("//"): continue
         m = TRUST_PAT.search(l)
         if m:
             o = out.map[k]
             if m.group(1) == "unreached": continue
+            if "pub proof fn" in l and o[0] == "speclib": 
+                nlem[0] += 1
+                continue
+            if o[0] == "contract_only":
+                ncon.append(o[1]); continue
             found.append("%s @ %s" % (l.strip()[:110], ":".join(str(x) for x in o[:3])))
+    if nlem[0]:
+        found.append("%d speclib lemma statements assumed in this unit (each proved in unit `speclib`, which every check runs)" % nlem[0])
+    if ncon:
+        found.append("callee contracts assumed in this unit and proved in their home unit: " + ", ".join(sorted(set(ncon))))
     return found
 
 def hint_tags(unit_name):
